@@ -142,7 +142,11 @@ class StandardFuncs(SnowfakeryPlugin):
                         "Should not specify a date specification and also other parameters."
                     )
                 dt = parse_datetimespec(datetimespec)
-                dt = dt.replace(tzinfo=timezone)
+                if dt.utcoffset() and timezone is not None:
+                    # a non-UTC offset was written: keep the instant
+                    dt = dt.astimezone(timezone)
+                else:
+                    dt = dt.replace(tzinfo=timezone)
             elif not (any((year, month, day, hour, minute, second, microsecond))):
                 # no dt specification provided at all...just use now()
                 dt = datetime.now(timezone)
